@@ -581,7 +581,7 @@ def main():
         # build what the claimed checks need (closure of each props file + its driver)
         os.makedirs(WORK, exist_ok=True)
         rc = 0
-        for cp in sorted(glob.glob(os.path.join(V, "checks", "C*.json"))):
+        for cp in sorted(glob.glob(os.path.join(V, "checks", "*.json"))):
             pid = os.path.basename(cp)[:-5]
             with open(cp) as f:
                 cfg = json.load(f)
